@@ -172,12 +172,12 @@ def grid_axioms(grid_elems):
 
 # trigger functions (always true): give quantified block / entry facts a trigger that does not depend on the shape of array terms
 trg_block = z3.Function("trg_block", z3.IntSort(), z3.IntSort(), z3.BoolSort())
-trg_entry = z3.Function("trg_entry", z3.IntSort(), z3.IntSort(), z3.BoolSort())
+trg_entry = z3.Function("trg_entry", z3.IntSort(), z3.IntSort(), z3.IntSort(), z3.IntSort(), z3.BoolSort())
 
 
 def trigger_axioms():
-    a, b = z3.Int("a!trg"), z3.Int("b!trg")
-    return [z3.ForAll([a, b], trg_block(a, b), patterns=[trg_block(a, b)]), z3.ForAll([a, b], trg_entry(a, b), patterns=[trg_entry(a, b)])]
+    a, b, i, j = z3.Int("a!trg"), z3.Int("b!trg"), z3.Int("i!trg"), z3.Int("j!trg")
+    return [z3.ForAll([a, b], trg_block(a, b), patterns=[trg_block(a, b)]), z3.ForAll([a, b, i, j], trg_entry(a, b, i, j), patterns=[trg_entry(a, b, i, j)])]
 
 
 def _on(ex):
@@ -343,12 +343,13 @@ class C07Models:
             st.assume(f)
         # precondition of the assumed contract (a sufficient condition for scipy to accept the blocks)
         ex.check(z3.And(nf >= 1, nv >= 1), "pre", "bmat:at-least-one-block-row-and-column", lineno, aux=True)
-        ex.check(z3.ForAll([a], z3.Implies(ra, grid_row_len(ge, a) == nv)), "pre", "bmat:rectangular-grid", lineno, aux=True)
-        ex.check(z3.ForAll([a], z3.Implies(z3.And(ra, trg_block(a, 0)), some(a, z3.IntVal(0)))), "pre", "bmat:first-block-column-is-filled", lineno, aux=True)
-        ex.check(z3.ForAll([b], z3.Implies(z3.And(0 <= b, b < nv, trg_block(0, b)), some(z3.IntVal(0), b))), "pre", "bmat:first-block-row-is-filled", lineno, aux=True)
+        ex.check(z3.ForAll([a], z3.Implies(z3.And(ra, trg_block(a, 0)), grid_row_len(ge, a) == nv), patterns=[trg_block(a, 0)]), "pre", "bmat:rectangular-grid", lineno, aux=True)
+        ex.check(z3.ForAll([a], z3.Implies(z3.And(ra, trg_block(a, 0)), some(a, z3.IntVal(0))), patterns=[trg_block(a, 0)]), "pre", "bmat:first-block-column-is-filled", lineno, aux=True)
+        ex.check(z3.ForAll([b], z3.Implies(z3.And(0 <= b, b < nv, trg_block(0, b)), some(z3.IntVal(0), b)), patterns=[trg_block(0, b)]), "pre", "bmat:first-block-row-is-filled", lineno,
+                 aux=True)
         ex.check(z3.ForAll([a, b], z3.Implies(z3.And(ra, rb, trg_block(a, 0), trg_block(0, b), some(a, b)), z3.And(TMat.dim(get(a, b), 0) == TMat.dim(get(a, z3.IntVal(0)), 0),
-                                                                              TMat.dim(get(a, b), 1) == TMat.dim(get(z3.IntVal(0), b), 1)))),
-                 "pre", "bmat:block-shapes-are-compatible", lineno, aux=True)
+                                                                                                                  TMat.dim(get(a, b), 1) == TMat.dim(get(z3.IntVal(0), b), 1))),
+                           patterns=[trg_block(a, b)]), "pre", "bmat:block-shapes-are-compatible", lineno, aux=True)
         H, W = grid_heights(ge), grid_widths(ge)
         for f in grid_axioms(ge):
             st.assume(f)
@@ -356,11 +357,16 @@ class C07Models:
         val = z3.If(OMat.is_none(cell(a, b)), z3.RealVal(0), TMat.el(get(a, b), i, j))
         placed = z3.Select(E, psum_i(H, a) + i, psum_i(W, b) + j)
         st.assume(z3.ForAll([a, b, i, j], z3.Implies(z3.And(ra, rb, 0 <= i, i < H[a], 0 <= j, j < W[b]), placed == val),
-                            patterns=[z3.MultiPattern(trg_block(a, b), trg_entry(i, j))]))
+                            patterns=[trg_entry(a, b, i, j)]))
         ex.assumed.add("assumed scipy contract: bmat(blocks) has shape (sum of block-row heights, sum of block-column widths), block (a, b) placed at "
                        "the offsets given by the prefix sums of the heights / widths, zeros where a block is None")
         r = _new(ex, True, (psum_i(H, nf), psum_i(W, nv)), E)
         st.heap[r.id].bm = (H, W, nf, nv)
+        steps = getattr(ex.contract, "bmat_steps", None)
+        if steps is not None:
+            # proof steps of the contract about the assembled matrix: checked here, then available as hypotheses
+            for label, f in steps(ex, st.heap[r.id]):
+                ex.check(f, "safety", f"proof-step:{label}", lineno, aux=True)
         return r
 
     # ------------------------------------------------------------------ attributes and methods of matrices
